@@ -243,13 +243,16 @@ fn snapshot_bytes(drv: Drv, s: u32, family: u8) -> Vec<u8> {
         }
         Drv::Console => {
             let mut v = Vec::new();
-            v.extend_from_slice(&(s as u16).to_le_bytes());
-            v.extend_from_slice(&(s as u16).to_le_bytes());
+            // family 1: the device toggles between two sizes (a window dragged back and forth), so
+            // whole snapshots repeat and two equally torn reads agree with each other
+            let (c, r) = if family == 1 { if s & 1 == 1 { (80u16, 24u16) } else { (132, 43) } } else { (s as u16, s as u16) };
+            v.extend_from_slice(&c.to_le_bytes());
+            v.extend_from_slice(&r.to_le_bytes());
             v.resize(16, 0);
             v
         }
         Drv::Net => {
-            let mut v = vec![s as u8; 6];
+            let mut v = vec![if family == 1 { 0x10 + (s & 1) as u8 } else { s as u8 }; 6];
             v.resize(24, 0);
             v
         }
@@ -299,8 +302,15 @@ enum Val {
 fn snapshot_val(drv: Drv, s: u32, family: u8) -> Val {
     match drv {
         Drv::Blk | Drv::Vsock => Val::U64(((if family == 1 { 7 + (s & 1) } else { s }) as u64) << 32 | s as u64),
+        Drv::Console if family == 1 => {
+            if s & 1 == 1 {
+                Val::Pair(80, 24)
+            } else {
+                Val::Pair(132, 43)
+            }
+        }
         Drv::Console => Val::Pair(s as u16, s as u16),
-        Drv::Net => Val::Mac([s as u8; 6]),
+        Drv::Net => Val::Mac([if family == 1 { 0x10 + (s & 1) as u8 } else { s as u8 }; 6]),
         Drv::P9 if family == 1 => Val::Tag(p9_utf8_tag(s)),
         Drv::P9 => {
             let len = 3 + (s % 5) as usize;
@@ -511,6 +521,22 @@ pub fn torn_items(drv: Drv, quick: bool) -> Vec<Item> {
                 }
             }
         }
+        // three and four updates at every placement among the first accesses, with the family
+        // whose snapshots repeat (A, B, A, B): what fools a reader that trusts two agreeing
+        // attempts instead of an unchanged generation
+        let lim3 = (base * 3 + 2).min(if quick { 14 } else { 20 });
+        for j in 0..lim3 {
+            for k in j + 1..lim3 {
+                for l in k + 1..lim3 {
+                    items.push(Item::T(Torn { drv, kind, updates: vec![j, k, l], family: 1 }));
+                    if !quick {
+                        for m in l + 1..lim3 {
+                            items.push(Item::T(Torn { drv, kind, updates: vec![j, k, l, m], family: 1 }));
+                        }
+                    }
+                }
+            }
+        }
     }
     items
 }
@@ -547,6 +573,7 @@ pub fn run(ctx: &Ctx) -> Report {
     // torn reads: one update at every position, two updates at every pair
     let mut n_single = 0;
     let mut n_pairs = 0;
+    let mut n_triples = 0;
     for drv in DRVS {
         for kind in TKS {
             let base = baseline_accesses(drv, kind);
@@ -569,6 +596,23 @@ pub fn run(ctx: &Ctx) -> Report {
                     n_pairs += 1;
                 }
             }
+            // three (thorough: and four) updates at every placement among the first accesses with
+            // the repeating family (snapshots A, B, A, B): two equally torn attempts agree
+            let lim3 = (base * 3 + 2).min(if ctx.quick() { 14 } else { 22 });
+            for j in 0..lim3 {
+                for k in j + 1..lim3 {
+                    for l in k + 1..lim3 {
+                        items.push(Item::T(Torn { drv, kind, updates: vec![j, k, l], family: 1 }));
+                        n_triples += 1;
+                        if !ctx.quick() {
+                            for m in l + 1..lim3 {
+                                items.push(Item::T(Torn { drv, kind, updates: vec![j, k, l, m], family: 1 }));
+                                n_triples += 1;
+                            }
+                        }
+                    }
+                }
+            }
         }
     }
     let (st, mut failure) = run_items(ctx, "items", items, |it: &Item, st| match it {
@@ -578,7 +622,7 @@ pub fn run(ctx: &Ctx) -> Report {
     stats.merge(st);
     if failure.is_none() {
         let strat = || {
-            (0usize..5, 0usize..3, prop::collection::btree_set(0u16..120, 0..12)).prop_map(|(d, k, u)| Torn { drv: DRVS[d], kind: TKS[k], family: (u.len() % 2) as u8, updates: u.into_iter().collect() })
+            (0usize..5, 0usize..3, prop_oneof![prop::collection::btree_set(0u16..120, 0..12), prop::collection::btree_set(0u16..20, 0..9)]).prop_map(|(d, k, u)| Torn { drv: DRVS[d], kind: TKS[k], family: (u.len() % 2) as u8, updates: u.into_iter().collect() })
         };
         let (st, f) = run_proptest(ctx, "torn", 131, ctx.n(300_000, 100_000_000), strat, |c: &Torn, st| torn(c, st));
         stats.merge(st);
@@ -589,13 +633,13 @@ pub fn run(ctx: &Ctx) -> Report {
         failure,
         info: PartInfo {
             level: "exploration",
-            rule: "bounds: exhaustive grid of window sizes 0..=300 bytes x {u8,u16,u32,[u8;6],8-byte struct,12-byte struct} x every suitably aligned offset in 0..=window+16 and the 16 offsets below usize::MAX x read/write x {MMIO legacy, MMIO modern, PCI, PCI without device-config capability}, oracle in 128-bit arithmetic on the ordered bus trace (exact byte coverage inside, error and empty trace outside, never a panic). Torn reads: blk capacity, vsock CID, console size, net MAC, 9p mount tag on {model, MMIO modern, PCI} with the device switching self-identifying snapshots (and, for 64-bit values, a second family whose upper half alternates between two values, so that it repeats across updates) (and bumping the generation) before the j-th configuration access: every single j, every pair, and generated sets of up to 12 updates; the returned value must equal one exposed snapshot. Non-trivial = every bounds grid cell; a torn-read schedule in which an update falls strictly between two field reads of one attempt. distinct = (kind, window) / (driver, transport, update positions).",
+            rule: "bounds: exhaustive grid of window sizes 0..=300 bytes x {u8,u16,u32,[u8;6],8-byte struct,12-byte struct} x every suitably aligned offset in 0..=window+16 and the 16 offsets below usize::MAX x read/write x {MMIO legacy, MMIO modern, PCI, PCI without device-config capability}, oracle in 128-bit arithmetic on the ordered bus trace (exact byte coverage inside, error and empty trace outside, never a panic). Torn reads: blk capacity, vsock CID, console size, net MAC, 9p mount tag on {model, MMIO modern, PCI} with the device switching self-identifying snapshots (and, for 64-bit values, a second family whose upper half alternates between two values, so that it repeats across updates) (and bumping the generation) before the j-th configuration access: every single j, every pair, every triple (thorough: quadruple) among the first accesses with a family whose whole snapshots alternate A, B, A, B (console size, MAC), and generated sets of up to 12 updates; the returned value must equal one exposed snapshot. Non-trivial = every bounds grid cell; a torn-read schedule in which an update falls strictly between two field reads of one attempt. distinct = (kind, window) / (driver, transport, update positions).",
             assumptions: vec![
                 "misaligned offsets and types with alignment > 4 are documented assertion failures of the crate and are not generated".into(),
                 "legacy MMIO has no generation counter, so untorn reads are not asserted there".into(),
             ],
             exhaustive: false,
-            extra: json!({"bounds_grid_cells": n_bounds, "bounds_grid_exhaustive": true, "single_update_schedules": n_single, "update_pair_schedules": n_pairs}),
+            extra: json!({"bounds_grid_cells": n_bounds, "bounds_grid_exhaustive": true, "single_update_schedules": n_single, "update_pair_schedules": n_pairs, "update_triple_and_quad_schedules_repeating_family": n_triples}),
         },
     }
 }
